@@ -135,6 +135,13 @@ def _run_check(prop, src_dir, tmp):
         replays = sorted(glob.glob(os.path.join(tmp, f'{prop}-*.json')))
         if replays:
             r1 = subprocess.run([sys.executable, CHECK, prop, '--replay', replays[0]], stdout=subprocess.PIPE, stderr=subprocess.STDOUT, env=env, text=True, timeout=1800)
+            vclass = json.load(open(replays[0]))['violation']['class']
+            if r1.returncode != 1 and vclass.startswith(('sanitizer:memory-error', 'crash:')):
+                # undefined behaviour in the defective program: what a dangling access observes varies between executions
+                for _ in range(3):
+                    r1 = subprocess.run([sys.executable, CHECK, prop, '--replay', replays[0]], stdout=subprocess.PIPE, stderr=subprocess.STDOUT, env=env, text=True, timeout=1800)
+                    if r1.returncode == 1:
+                        break
             env2 = dict(env)
             env2.pop('VERIF_REPO_SRC')
             r2 = subprocess.run([sys.executable, CHECK, prop, '--replay', replays[0]], stdout=subprocess.PIPE, stderr=subprocess.STDOUT, env=env2, text=True, timeout=1800)
@@ -203,6 +210,10 @@ def run_catalogue():
         sid = os.path.basename(os.path.dirname(meta_path))
         meta = json.load(open(meta_path))
         items.append(('patch', 'r-agent-' + sid, meta['must_stay_green'], os.path.join(os.path.dirname(meta_path), 'patch.diff')))
+    only = os.environ.get('VERIF_MUTANTS_ONLY')
+    if only:
+        wanted = set(only.split(','))
+        items = [it for it in items if it[1] in wanted]
     failures = 0
     # the checks parallelise internally; run the catalogue sequentially
     for item in items:
